@@ -448,7 +448,20 @@ impl<const K: usize> Complement for Kmer<codec::dna::Dna, K, usize> {}
 
 impl<A: Codec, const K: usize> ReverseMut for Kmer<A, K, usize> {
     fn rev(&mut self) {
-        self.rev_blocks_2();
+        if A::BITS == 2 {
+            self.rev_blocks_2();
+        } else {
+            // symbols that are not 2 bits wide: move them one at a time
+            let bits = u32::from(A::BITS);
+            let mask = usize::MAX >> (usize::BITS - bits);
+            let mut src = self.bs;
+            let mut dst: usize = 0;
+            for _ in 0..K {
+                dst = dst.wrapping_shl(bits) | (src & mask);
+                src = src.wrapping_shr(bits);
+            }
+            self.bs = dst;
+        }
     }
 }
 
